@@ -507,8 +507,9 @@ mod imp2 {
                                 manual.push(s3.positions.to_data().to_vec().unwrap());
                             }
                         }
+                        let manual_after: Vec<f64> = s3.positions.to_data().to_vec().unwrap();
                         json!({"first": nums(&r1), "second": nums(&r2), "long": nums(&long), "pos_after_first": nums(&pos_after), "shape": [3, a, 2],
-                               "manual": manual.iter().map(|m| nums(m)).collect::<Vec<_>>()})
+                               "manual": manual.iter().map(|m| nums(m)).collect::<Vec<_>>(), "manual_after": nums(&manual_after)})
                     }
                     _ => {
                         let mk = || NUTSChain::<f64, B64, _>::new(g(), vec![0.5, -0.5], 0.8).set_seed(seed);
@@ -526,6 +527,102 @@ mod imp2 {
                                "rng_same_as_rerun": &rng_after == t2.verif_rng(), "shape": [a, 2]})
                     }
                 }
+            }
+            "gibbs_sweeps" => {
+                // GibbsMarkovChain::step with a scripted, recording Conditional: every sweep must ask each coordinate exactly
+                // once, in the freshest state, also when a sweep reproduces the stored values
+                use mini_mcmc::core::MarkovChain;
+                use mini_mcmc::distributions::Conditional;
+                use mini_mcmc::gibbs::GibbsMarkovChain;
+                use std::cell::RefCell;
+                use std::rc::Rc;
+                #[derive(Clone)]
+                struct Rec { log: Rc<RefCell<Vec<(usize, Vec<i64>)>>>, mode: u8, sweep_len: usize }
+                impl Conditional<i64> for Rec {
+                    fn sample(&mut self, index: usize, given: &[i64]) -> i64 {
+                        let n = self.log.borrow().len();
+                        self.log.borrow_mut().push((index, given.to_vec()));
+                        let sweep = n / self.sweep_len.max(1);
+                        match self.mode {
+                            0 => if sweep == 0 { given[index] } else { (n as i64) * 7 + 1 },          // first sweep reproduces the state
+                            1 => (n as i64) * 3 + 11,                                                  // always fresh
+                            _ => if sweep % 2 == 0 { given[index] } else { given[index] + 5 },         // alternate: unchanged / moved
+                        }
+                    }
+                }
+                let d = case["d"].as_u64().unwrap_or(3) as usize;
+                let sweeps = case["sweeps"].as_u64().unwrap_or(3) as usize;
+                let mode = match case["script"].as_str().unwrap_or("fresh") { "repeat_first" => 0, "fresh" => 1, _ => 2 };
+                let log = Rc::new(RefCell::new(vec![]));
+                let init: Vec<i64> = (0..d as i64).map(|i| 100 + i).collect();
+                let mut chain = GibbsMarkovChain::new(Rec { log: log.clone(), mode, sweep_len: d }, &init);
+                let mut bad: Vec<String> = vec![];
+                let mut model = init.clone();
+                for s in 0..sweeps {
+                    let n0 = log.borrow().len();
+                    let ret = chain.step().clone();
+                    let calls: Vec<(usize, Vec<i64>)> = log.borrow()[n0..].to_vec();
+                    let mut idx: Vec<usize> = calls.iter().map(|c| c.0).collect();
+                    idx.sort();
+                    if idx != (0..d).collect::<Vec<_>>() {
+                        bad.push(format!("sweep {s}: coordinates asked {:?}", calls.iter().map(|c| c.0).collect::<Vec<_>>()));
+                        break;
+                    }
+                    // re-derive the answers from the script to follow the freshest state
+                    let mut k = n0;
+                    for (i, given) in &calls {
+                        if given != &model { bad.push(format!("sweep {s}: request for coordinate {i} saw {:?}, freshest state is {:?}", given, model)); }
+                        let sweep = k / d.max(1);
+                        let ans = match mode { 0 => if sweep == 0 { given[*i] } else { (k as i64) * 7 + 1 }, 1 => (k as i64) * 3 + 11,
+                                               _ => if sweep % 2 == 0 { given[*i] } else { given[*i] + 5 } };
+                        model[*i] = ans;
+                        k += 1;
+                    }
+                    if ret != model || chain.current_state != model { bad.push(format!("sweep {s}: state {:?}, expected {:?}", chain.current_state, model)); }
+                }
+                bad.truncate(3);
+                json!({"ok": bad.is_empty(), "bad": bad})
+            }
+            "mh_seed_streams" => {
+                // MetropolisHastings::new(..).seed(s) with a user-defined proposal that records the seed it is given: reproducible
+                // (two constructions agree), and all 2n generators (acceptance + proposal) pairwise different
+                use mini_mcmc::distributions::{Proposal, Target};
+                use mini_mcmc::metropolis_hastings::MetropolisHastings;
+                use rand::rngs::SmallRng;
+                use rand::SeedableRng;
+                #[derive(Clone)]
+                struct Flat;
+                impl Target<f64, f64> for Flat { fn unnorm_logp(&self, _x: &[f64]) -> f64 { 0.0 } }
+                #[derive(Clone, PartialEq, Debug)]
+                struct RecP { seed: Option<u64> }
+                impl Proposal<f64, f64> for RecP {
+                    fn sample(&mut self, c: &[f64]) -> Vec<f64> { c.to_vec() }
+                    fn logp(&self, _f: &[f64], _t: &[f64]) -> f64 { 0.0 }
+                    fn set_seed(self, seed: u64) -> Self { RecP { seed: Some(seed) } }
+                }
+                let seed: u64 = case["seed"].as_str().and_then(|s| s.parse().ok()).unwrap_or(7);
+                let n = case["chains"].as_u64().unwrap_or(2) as usize;
+                let mk = || MetropolisHastings::new(Flat, RecP { seed: None }, vec![vec![0.0_f64]; n]).seed(seed);
+                let (a, b) = (mk(), mk());
+                let mut bad: Vec<String> = vec![];
+                let mut gens: Vec<SmallRng> = vec![];
+                for i in 0..n {
+                    if a.chains[i].rng != b.chains[i].rng || a.chains[i].proposal != b.chains[i].proposal {
+                        bad.push(format!("chain {i}: two identically seeded samplers differ"));
+                    }
+                    match a.chains[i].proposal.seed {
+                        None => bad.push(format!("chain {i}: proposal was not reseeded")),
+                        Some(ps) => gens.push(SmallRng::seed_from_u64(ps)),
+                    }
+                    gens.push(a.chains[i].rng.clone());
+                }
+                'outer: for i in 0..gens.len() {
+                    for j in (i + 1)..gens.len() {
+                        if gens[i] == gens[j] { bad.push(format!("generators {i} and {j} (acceptance/proposal interleaved) are identical")); break 'outer; }
+                    }
+                }
+                bad.truncate(3);
+                json!({"ok": bad.is_empty(), "bad": bad})
             }
             "runner_layout" => {
                 // ChainRunner::run on a user-defined sampler whose chain c counts from 100*c: row c, entry k must be
